@@ -766,6 +766,16 @@ def _arg_combine(data, axis, argfunc, keepdims=False):
     arg = data["arg"]
     if axis is None:
         local_args = argfunc(vals, axis=axis, keepdims=keepdims)
+        if vals.ndim > 1:
+            # Blocks of a raveled n-d array are not visited in flat-index order:
+            # break ties towards the smallest flat index, like NumPy does
+            flat_vals, flat_arg = vals.ravel(), arg.ravel()
+            best = flat_vals[np.ravel(local_args)[0]]
+            ties = flat_vals == best if best == best else flat_vals != flat_vals
+            ties = np.flatnonzero(ties)
+            if len(ties) > 1:
+                first = ties[np.argmin(flat_arg[ties])]
+                local_args = np.full_like(local_args, first)
         vals = vals.ravel()[local_args]
         arg = arg.ravel()[local_args]
     else:
